@@ -4,6 +4,7 @@ into Gen/CtxFacts.v (fail closed):
   * the argument order of every `ContextView(...)` call the model mirrors (7 call sites),
   * the version comparison of context_versioning._merge_ctx and how versions are merged,
   * that get_in_context_with_versions deep-copies the stored in_context and increments versions,
+  * which version keys a published leaf / a published dictionary bumps, how PublishSpec.merge assigns its parts,
   * that evaluate_recursively starts with a deep copy of its input,
   * that evaluate_upstream_context takes its base with `.pop()` (last row),
   * that evaluate_task_outbound_context (replace strategy) overlays `published` on the copied context.
@@ -23,6 +24,7 @@ CV = 'mistral/workflow/context_versioning.py'
 DW = 'mistral/workflow/direct_workflow.py'
 ET = 'mistral/engine/tasks.py'
 EX = 'mistral/expressions/__init__.py'
+PB = 'mistral/lang/v2/publish.py'
 
 
 def _parse(repo, rel):
@@ -69,7 +71,7 @@ def _coq_list(xs):
 
 
 def translate(repo):
-    df, cv, dw, et, ex = (_parse(repo, r) for r in (DF, CV, DW, ET, EX))
+    df, cv, dw, et, ex, pb = (_parse(repo, r) for r in (DF, CV, DW, ET, EX, PB))
     views = [
         ('view_publish_variables', _view_args(_func(df, 'publish_variables'), 'publish_variables')),
         ('view_workflow_output', _view_args(_func(df, 'evaluate_workflow_output'), 'evaluate_workflow_output')),
@@ -115,6 +117,24 @@ def translate(repo):
                  '_get_published_keys_recursively leaf test')
     leaf_test = ast.unparse(pk_if.test)
     prefix_stmt = ast.unparse(pk.body[0].body[0]) if isinstance(pk.body[0], ast.For) else ''
+    # what is appended to updated_keys for a leaf / for a dict-valued entry (in order), and the recursion
+    def appended(stmts):
+        out = []
+        for st in stmts:
+            for n in ast.walk(st):
+                if isinstance(n, ast.Call) and isinstance(n.func, ast.Attribute) and n.func.attr == 'append' \
+                        and ast.unparse(n.func.value) == 'updated_keys':
+                    a = n.args[0]
+                    out.append('md5(new_prefix)' if 'md5' in ast.unparse(a) and 'new_prefix' in ast.unparse(a) else ast.unparse(a))
+                if isinstance(n, ast.Call) and isinstance(n.func, ast.Name) and n.func.id == '_get_published_keys_recursively':
+                    out.append('recurse(%s)' % ', '.join(ast.unparse(x) for x in n.args[1:]))
+        return out
+    leaf_appends = appended(pk_if.body)
+    dict_appends = appended(pk_if.orelse)
+    # PublishSpec.merge: the assignments of the three parts
+    pm = _func(pb, 'merge', 'PublishSpec')
+    pm_assigns = [ast.unparse(n) for n in ast.walk(pm) if isinstance(n, ast.Assign)]
+    pm_calls = [ast.unparse(n) for n in ast.walk(pm) if isinstance(n, ast.Expr) and isinstance(n.value, ast.Call)]
     # evaluate_recursively
     er = _func(ex, 'evaluate_recursively')
     er_first = ast.unparse(er.body[0])
@@ -128,7 +148,7 @@ def translate(repo):
     eo = _func(df, 'evaluate_task_outbound_context')
     rets = [ast.unparse(n.value) for n in ast.walk(eo) if isinstance(n, ast.Return) and 'update_dict' in ast.unparse(n.value)]
 
-    out = ['(* GENERATED from %s by translate/tr_ctxfacts.py on every run. Do not edit. *)' % ', '.join((DF, CV, DW, ET, EX)),
+    out = ['(* GENERATED from %s by translate/tr_ctxfacts.py on every run. Do not edit. *)' % ', '.join((DF, CV, DW, ET, EX, PB)),
            'From Coq Require Import List String.', 'Import ListNotations.', 'Open Scope string_scope.', '']
     for name, args in views:
         out.append('Definition %s : list string := %s.' % (name, _coq_list(args)))
@@ -142,6 +162,10 @@ def translate(repo):
         'Definition in_context_bump : list string := %s.' % _coq_list(bump_stmt),
         'Definition published_leaf_test : string := %s.' % _coq_list([leaf_test])[1:-1],
         'Definition published_prefix : string := %s.' % _coq_list([prefix_stmt])[1:-1],
+        'Definition published_leaf_appends : list string := %s.' % _coq_list(leaf_appends),
+        'Definition published_dict_appends : list string := %s.' % _coq_list(dict_appends),
+        'Definition publish_merge_assignments : list string := %s.' % _coq_list(pm_assigns),
+        'Definition publish_merge_discarded_calls : list string := %s.' % _coq_list(pm_calls),
         'Definition evaluate_recursively_first : string := %s.' % _coq_list([er_first])[1:-1],
         'Definition upstream_pops : list string := %s.' % _coq_list(pops),
         'Definition upstream_merges : list string := %s.' % _coq_list(merges),
